@@ -160,6 +160,8 @@ def run(repo, tier) -> Result:
                     res.fail("R-EFFECT", finding("C19", "R-EFFECT", m, node, f"read-only entry point mutates {root!r}: {why}"))
     for mod, names in READ_ONLY_FUNCS.items():
         for nm in names:
+            if nm.startswith("_") and nm not in repo.module(mod).functions:
+                continue  # a private helper folded into its caller by a refactoring: its effects are analysed there
             f = repo.func(mod, nm)
             n += 1
             e = eff.effect(f)
